@@ -156,7 +156,11 @@ func genPrefix(out *sink, rnd *rand.Rand, thorough bool) {
 		for l := 0; l <= max; l++ {
 			lens = append(lens, l)
 		}
-		lens = append(lens, max+1, 129, 200, 255)
+		for l := max + 1; l <= 255; l++ { // every illegal length octet
+			if l <= max+2 || l >= 240 || l%16 == 1 || thorough {
+				lens = append(lens, l)
+			}
+		}
 		emit(e, nil)
 		for _, l := range lens {
 			for fi, fill := range fills {
@@ -241,7 +245,9 @@ func genPrefix(out *sink, rnd *rand.Rand, thorough bool) {
 		out.put(rec{"f": "mpunreach", "flags": fl, "b": []int{0}, "r": runMPUnreach(uint8(fl), []byte{0})})
 	}
 	for l := 0; l <= 50; l++ {
-		b := counter(l)
-		out.put(rec{"f": "v6nh", "b": ints(b), "r": runV6NH(b)})
+		for _, b := range [][]byte{counter(l), make([]byte, l), append(make([]byte, l/2), counter(l-l/2)...),
+			append(counter(l/3), make([]byte, l-l/3)...)} {
+			out.put(rec{"f": "v6nh", "b": ints(b), "r": runV6NH(b)})
+		}
 	}
 }
